@@ -153,7 +153,8 @@ class StorageKeyFormingConvention(CollisionEvadingConvention):
 
     @staticmethod
     def make_safe_key(key: str) -> str:
-        replacements = {'/': '.', '<': '_', '>': '_'}
+        # NB: ':' comes from kopf's own ids of lambdas: 'lambda:<path>:<line>' (get_callable_id()).
+        replacements = {'/': '.', '<': '_', '>': '_', ':': '_'}
         for k, v in replacements.items():
             key = key.replace(k, v)
         return key
